@@ -251,7 +251,7 @@ def judge_prepare(prop, op, impl, model, collect):
     one batch; the returned closure reads its answers)."""
     name = op.split(" ")[0]
     const = lambda bad, why: (lambda answers: (bad, why))
-    if impl == "panic":
+    if impl.startswith("panic"):
         return const(True, "the implementation panicked on an input on which the (proved total) model answers " + model[:200])
     if name == "valid":
         return const(True, "the implementation produced a MOC that is not canonical / not inside the domain / not aligned on its declared depth (validB = false)")
